@@ -118,6 +118,8 @@ def _in_fresh_child(fn, arg):
     pool = mpc.Pool(1)
     try:
         return pool.apply(fn, (arg,))
+    except Exception as e:              # the replay itself failed: reported as "does not reproduce" (a machinery error)
+        return ["<replay failed: %s: %s>" % (type(e).__name__, str(e)[:200])]
     finally:
         pool.terminate()
         pool.join()
@@ -348,4 +350,13 @@ def main():
 
 
 if __name__ == "__main__":
-    main()
+    try:
+        main()
+    except SystemExit:
+        raise
+    except BaseException as e:          # never leave with the interpreter's own exit code 1: that code means "violation"
+        import traceback
+        traceback.print_exc()
+        sys.stdout.flush()
+        print("MACHINERY-ERROR: the runner itself failed: %s: %s" % (type(e).__name__, str(e)[:300]))
+        sys.exit(2)
